@@ -352,9 +352,42 @@ def simple_body(rng):
 
 
 def gen_c_gateway(rng, head):
-    """oracle-only: lang/c MiniMessageGateway / MicroMessageGateway talking to the C++ MessageIOGateway (MC, CM, UC, CU)"""
-    qs = ["q:" + hexs(simple_body(rng)) for _ in range(rng.choice([1, 2, 3, 5]))]
+    """lang/c MiniMessageGateway / MicroMessageGateway talking to the C++ MessageIOGateway (MC, CM, UC, CU); the mini
+    gateway's calls (MC, CM) are also compared with Gw/MiniModel.v, the micro ones are oracle-only"""
+    def body():
+        if head in ("MC", "CM") and rng.random() < 0.08:
+            # big enough that the mini receiver trades up its input buffer past 64 KB (and shrinks it afterwards), and
+            # the C++ receiver leaves its scratch buffer
+            base = len(flat_msg(6, [f_str("s", [b""])]))
+            edge = 32768 - 8 - base     # string length at which 2*(frame size) is exactly the 64 KB the mini receiver shrinks above
+            return flat_msg(6, [f_str("s", [bytes(rng.choice(b"abcxyz ") for _ in range(rng.choice([2000, 20000, edge - 1, edge, edge + 1, 70000])))])])
+        return simple_body(rng)
+    qs = ["q:" + hexs(body()) for _ in range(rng.choice([1, 2, 3, 5]))]
     return head + "|" + ";".join(interleave(rng, qs, rng.choice([0, 2, 4, 8]), drain(rng, 3, rng.choice([0, 0, 30]))))
+
+
+def gen_c_mini_bad(rng):
+    """the mini receiver fed frames built here: valid ones, then a header it must refuse (body size 0, an encoding other
+    than 'Enc0', sizes whose +8 or whose doubling wraps 32 bits), then more bytes, which it must leave alone"""
+    def frame(body):
+        return struct.pack("<II", len(body), 1164862256) + body
+    ops = []
+    for _ in range(rng.choice([0, 1, 2])):
+        ops.append("x:" + hexs(frame(simple_body(rng))))
+        if rng.random() < 0.5:
+            ops.append(op_i(rng))
+    r = rng.randrange(4)
+    if r == 0:
+        bad = struct.pack("<II", 0, 1164862256)
+    elif r == 1:
+        bad = struct.pack("<II", rng.choice([12, 100]), rng.choice([1164862257, 1164862262, 0, 0xffffffff]))
+    elif r == 2:
+        bad = struct.pack("<II", rng.choice([0xfffffff8, 0xffffffff, 0xfffffffb]), 1164862256)
+    else:
+        bad = struct.pack("<II", rng.choice([0x7ffffffc, 0x7ffffff8, 0x80000000, 0xc0000000, 0xfffffff7]), 1164862256)
+    ops.append("x:" + hexs(bad + frame(simple_body(rng))))
+    ops += drain(rng, 2, rng.choice([0, 30]))[1::2] + [op_i(rng), op_i(rng)]
+    return "CM|" + ";".join(ops)
 
 
 def gen_websocket(rng, head):
@@ -630,7 +663,8 @@ class CHECK(vlib.Check):
     harness = dict(name="gw", src="gw_h.cpp", san="asan", link_lib=True,
                    # calls of the library to its PRNG go through the harness, which can supply WebSocket masking keys
                    extra_flags=("-Wl,--wrap=_ZN6muscle31GetInsecurePseudoRandomNumber32Ej",),
-                   c_srcs=("lang/c/minimessage/MiniMessage.c", "lang/c/minimessage/MiniMessageGateway.c",
+                   # gw_c_minigw.c = lang/c/minimessage/MiniMessageGateway.c + read-only accessors for its private state
+                   c_srcs=("lang/c/minimessage/MiniMessage.c", os.path.join(vlib.VERIF, "harness", "gw_c_minigw.c"),
                            os.path.join(vlib.VERIF, "harness", "gw_c_micromsg.c"), "lang/c/micromessage/MicroMessageGateway.c"))
     modelled = ("iogateway/MessageIOGateway.cpp stream mode: DoOutputImplementation/SendMoreData, DoInputImplementation/"
                 "ReceiveMoreData/GetBodySize with scratch-buffer sizing and uint32 size arithmetic, for the DEFAULT encoding and "
@@ -646,8 +680,11 @@ class CHECK(vlib.Check):
                 "receive loop, un-masking, fragments, binary/close/continuation/pong frames (corresponded: server->client pair and a "
                 "server receiver fed client frames built by the generator, client->server pair with the masking keys fixed by the case "
                 "through a link-time wrapper of the PRNG; TEXT/PING frames and the HTTP handshake are not modelled). "
+                "lang/c/minimessage/MiniMessageGateway.c: MGAddOutgoingMessage/MGDoOutput and MGDoInput (header checks, buffer "
+                "trade-up and 64 KB shrink, one Message per call), corresponded in both directions against the C++ binary gateway "
+                "(MMFlatten/MMUnflattenMessage are outside the model). "
                 "Harness oracle only (not modelled): WebSocket client sender with its own random keys, "
-                "the C mini/micro gateways against the C++ one, zlib under the templating gateway, packet-mode (UDP-style) "
+                "the C micro gateway against the C++ one, zlib under the templating gateway, packet-mode (UDP-style) "
                 "operation of the binary/text/raw gateways, StressTestParserProxyDataIO as second segmenter.")
     premises = ["memory safety and object lifetime of the C++ (observed by ASan/UBSan in the harness only)",
                 "Message::Flatten/Unflatten round trip (C01) for the bodies carried by the binary gateway",
@@ -691,8 +728,12 @@ class CHECK(vlib.Check):
             if j % 5 == 0:
                 out.append(("templating-pressure-oracle", gen_tmpl_pressure(rng, enc=rng.choice([0, 1, 6, 9]), model=False)))
         for j in range(10 if tier == "quick" else 100):
-            for head in ("MC", "CM", "UC", "CU"):
+            for head in ("UC", "CU"):
                 out.append(("c-gateways-oracle", gen_c_gateway(rng, head)))
+            for _ in range(3):
+                for head in ("MC", "CM"):
+                    out.append(("c-mini-gateway", gen_c_gateway(rng, head)))
+                out.append(("c-mini-gateway", gen_c_mini_bad(rng)))
             out.append(("websocket-oracle", gen_websocket(rng, "WC")))
             for _ in range(3):
                 out.append(("websocket", gen_websocket(rng, "WS")))
